@@ -18,6 +18,8 @@ NBlocks == (Len(Recs) + Block - 1) \div Block
 VARIABLE i      \* < 0: block marker, > 0: record index
 
 Has(r, f) == f \in DOMAIN r
+\* width of the face-node table the grid was built from (it may be wider than the largest face)
+W(r) == IF Has(r, "width") THEN r.width ELSE MaxSize(r.mesh)
 
 Clauses(r) ==
   LET m == r.mesh
@@ -29,10 +31,10 @@ Clauses(r) ==
     EdgeNoneExtra    |-> Has(r, "edges") => EdgeNoneExtra(m, E),
     EdgeNoDuplicates |-> Has(r, "edges") => EdgeNoDuplicates(E),
     EdgeCount        |-> Has(r, "n_edge") => r.n_edge = Cardinality(EdgeSet(m)),
-    FaceEdgeShape    |-> Has(r, "face_edges") => FaceEdgeShape(m, r.face_edges, MaxSize(m)),
+    FaceEdgeShape    |-> Has(r, "face_edges") => FaceEdgeShape(m, r.face_edges, W(r)),
     FaceEdgePadding  |-> Has(r, "face_edges") => FaceEdgePadding(m, r.face_edges),
     FaceEdgeJoins    |-> Has(r, "face_edges") => FaceEdgeJoins(m, E, r.face_edges),
-    FaceEdgeWidth    |-> Has(r, "fe_width") => r.fe_width = MaxSize(m),
+    FaceEdgeWidth    |-> Has(r, "fe_width") => r.fe_width = W(r),
     NodeFaceShape    |-> Has(r, "node_faces") => NodeFaceShape(m, r.n_node, r.node_faces),
     NodeFaceMembers  |-> Has(r, "node_faces") => NodeFaceMembers(m, r.n_node, r.node_faces),
     NodeFacePadding  |-> Has(r, "node_faces") => NodeFacePadding(r.node_faces),
